@@ -105,6 +105,28 @@ fn lib_walk(e: &Envelope, hide_nodes: bool) -> Vec<Visit> {
     out.into_inner()
 }
 
+/// The same walk with a visitor that hands a context down only from some elements (visit index % 3 != 1)
+/// and None from the others: what an element returns reaches exactly its children.
+fn lib_walk_selective(e: &Envelope, hide_nodes: bool) -> Vec<Visit> {
+    let out: RefCell<Vec<Visit>> = RefCell::new(Vec::new());
+    let visitor = |env: Envelope, level: usize, edge: EdgeType, parent: Option<usize>| -> Option<usize> {
+        let mut o = out.borrow_mut();
+        let me = o.len();
+        o.push(Visit { digest: d32(&env.digest()), level, edge: edge_name(edge), parent });
+        if me % 3 != 1 {
+            Some(me)
+        } else {
+            None
+        }
+    };
+    e.walk(hide_nodes, &visitor);
+    out.into_inner()
+}
+
+fn selective_expectation(want: &[Visit]) -> Vec<Visit> {
+    want.iter().map(|v| Visit { digest: v.digest, level: v.level, edge: v.edge, parent: v.parent.and_then(|p| if p % 3 != 1 { Some(p) } else { None }) }).collect()
+}
+
 fn leaf_of(m: &M) -> Option<&Vec<u8>> {
     match m {
         M::Leaf(b) => Some(b),
@@ -232,6 +254,15 @@ pub fn run(data: &[u8], ctx: &mut Ctx) -> Outcome {
     if got_t != want_t {
         let i = got_t.iter().zip(want_t.iter()).position(|(a, b)| a != b).unwrap_or(got_t.len().min(want_t.len()));
         check!(ctx, false, "walk", "C15/walk/tree", "tree walk of {} differs at visit {}: got {:?}, expected {:?} (lengths {} vs {})", m.show(), i, got_t.get(i), want_t.get(i), got_t.len(), want_t.len());
+    }
+    // a visitor that returns None at some elements: their children - and only theirs - get None
+    for (mode, w) in [(false, &want), (true, &want_t)] {
+        let got_s = nopanic!(ctx, lib_walk_selective(&e, mode), "walk", "C15/walk/context");
+        let want_s = selective_expectation(w);
+        if got_s != want_s {
+            let i = got_s.iter().zip(want_s.iter()).position(|(a, b)| a != b).unwrap_or(got_s.len().min(want_s.len()));
+            check!(ctx, false, "walk", "C15/walk/context", "{} walk of {} with a visitor that returns None at every third element: visit {} got {:?}, expected {:?}", if mode { "tree" } else { "structure" }, m.show(), i, got_s.get(i), want_s.get(i));
+        }
     }
     // the tree walk is the structure walk minus node elements
     let non_nodes: Vec<D32> = m.elements().iter().filter(|x| !matches!(x, M::Node(..))).map(|x| x.digest()).collect();
